@@ -162,6 +162,29 @@ def classify(diag, meta, world_file):
     return out
 
 
+# The trait-level `Push::push` contract has one clause per property.  A failure of one clause is reported under the
+# properties that clause states (intersected with the function's own tags), not under every tag of the function:
+#   issued(r) / rd(r) =~= val(item)        read-back of the new item  — not the append-only property C02
+#   forall old issued ... rd unchanged     append-only                 — not the read-back property C01
+#   is_dense() ==> adjacent ranges         index shape                 — neither C01 nor C02 (reads are stated by the other clauses)
+_TRAIT_CLAUSE_EXCLUDES = [
+    ("old(self).issued(i) ==>", {"C01"}),
+    ("final(self).rd(r) =~= Self::val(item)", {"C02"}),
+    ("final(self).issued(r)", {"C02"}),
+    ("Self::is_dense() ==>", {"C01", "C02"}),
+]
+
+
+def _trait_clause_tags(ob, tags):
+    if "#ensures.trait:" not in ob:
+        return tags
+    text = ob.split("#ensures.trait:", 1)[1]
+    for pat, excl in _TRAIT_CLAUSE_EXCLUDES:
+        if text.startswith(pat[:len(text)]) or pat in text:
+            return [t for t in tags if t not in excl]
+    return tags
+
+
 def run_world(name, repo="/repo", tier="quick", seed=0, timeout=600):
     """Generate + verify world `name` (`<template>` or `<template>+<flag>`, e.g. `regions+failstop`)."""
     base, _, flag = name.partition("+")
@@ -292,7 +315,7 @@ def run_world(name, repo="/repo", tier="quick", seed=0, timeout=600):
             continue
         o["status"] = "failed"
         o.setdefault("failures", []).append(dict(obligation=ob, msg=c["msg"], where=c.get("where"), rendered=c["rendered"]))
-        violations.append(dict(obligation=ob, fn=c["fn"], tags=o["tags"], msg=c["msg"], rendered=c["rendered"], where=c.get("where")))
+        violations.append(dict(obligation=ob, fn=c["fn"], tags=_trait_clause_tags(ob, o["tags"]), msg=c["msg"], rendered=c["rendered"], where=c.get("where")))
     # a function with any failure: its other obligations are not established by this run either, but Verus
     # reports each failed clause separately (--multiple-errors), so the remaining ones stay discharged.
     for fid in external:
